@@ -420,6 +420,10 @@ def run(chk):
         ws = [w for w in (m3(l, o) for l, o in zip(small, outs) if o != "skipped") if w and violation_key(w) == key]
         chk.report(key, ws[0] if ws else j["what"], {"family": FAMILY, "harness": HARNESS, "variant": "asan", "stateful": True, "lines": small,
                                     "observed_impl": outs, "link_lib": False})
+    for r in crashes:
+        if r.get("at_exit"):
+            chk.report("spin:crash-at-exit:" + r["kind"], "the harness process failed at exit (%s) after executing the real code" % r["kind"],
+                       {"family": FAMILY, "harness": HARNESS, "kind": r["kind"], "stderr": (r.get("stderr") or "")[-2000:]})
     # 4b. model != implementation, no property violation there
     if dis and not judged:
         d = dis[0]
